@@ -108,6 +108,7 @@ func genC15(r *sim.Rng, tier string, idx int) *GCase {
 			v.Format = sim.Pick(r, []string{"", "", "xz", "auto"})
 		}
 		v.ZFlag = r.Chance(1, 6)
+		v.AlsoD, v.DAfterZ = v.ZFlag && r.Chance(1, 3), r.Bool()
 	} else {
 		v.Format = sim.Pick(r, []string{"", "", "auto", "auto", format})
 	}
